@@ -479,6 +479,17 @@ pub fn mlpc_proof_variants<E: Pairing>(p: &Vec<mlds::Proof<E>>, seed: u64) -> Ve
         let mut q = p.clone();
         q[i].proofs.push(g2::<E>(seed, 1790));
         out.push(("witnesses-longer".to_string(), q));
+        // identity padding: every pairing factor these elements take part in is trivial
+        use ark_ec::AffineRepr;
+        let n = p[i].proofs.len();
+        for (name, len) in [("witnesses-all-identity", n), ("witnesses-all-identity-longer", n + 1), ("witnesses-all-identity-shorter", n.saturating_sub(1))] {
+            let mut q = p.clone();
+            q[i].proofs = vec![E::G2Affine::zero(); len];
+            out.push((name.to_string(), q));
+        }
+        let mut q = p.clone();
+        q[i].proofs.push(E::G2Affine::zero());
+        out.push(("witnesses-longer-identity".to_string(), q));
     }
     if !p.is_empty() {
         let mut q = p.clone();
